@@ -5,7 +5,59 @@ from .conn_common import replay_scenario, run_conn_check
 MON = [("log", CS.mon_c20)]
 
 
+def api_log_sessions(chk):
+    """the same log read through YncaApi.get_communication_log_items(): repeated reads with device lines and
+    keep-alive traffic in between, no new user command"""
+    import random
+
+    from .. import apiscen as AS
+    from ..subharness import class_info
+
+    infos, _ = class_info()
+    rng = random.Random(chk.seed + 2000)
+    n = 10 if chk.tier == "quick" else 150
+    for k in range(n):
+        rx, present = AS.synthetic_receiver(random.Random(rng.randrange(1 << 30)), [x for x in infos if x[1] in ("SYS", "MAIN", "ZONE2")])
+        N = rng.choice([3, 10, 50, 1000])
+        s = AS.ApiSession(rng.randrange(1 << 30), rx, latency_us=20000, switch_prob=rng.choice([0.05, 0.3]), log_size=N)
+        reads = []
+
+        def body(s):
+            api = s.make_api()
+            s.call(api.initialize)
+            if s.exc is not None:
+                return
+            for step in range(4):
+                reads.append((list(api.get_communication_log_items()), list(api._connection.get_communication_log_items())))
+                what = rng.choice(["unsolicited", "idle", "raw"])
+                if what == "unsolicited":
+                    s.dev.emit_at(s.sim.now + 1000, b"@MAIN:VOL=-25.5\r\n")
+                    s.sleep(0.2)
+                elif what == "idle":
+                    s.sleep(31.0)  # a keep-alive probe and its reply pass
+                else:
+                    api.send_raw("@MAIN:MUTE=?")
+                    s.sleep(0.5)
+            reads.append((list(api.get_communication_log_items()), list(api._connection.get_communication_log_items())))
+            api.close()
+
+        s.run(body)
+        chk.count_case({"api_log": k, "N": N}, True)
+        if s.sim.failure is not None:
+            chk.violation("C20:api-no-termination", f"session never came to rest: {s.sim.failure}", {"api_log_case": k})
+            continue
+        for i, (via_api, via_conn) in enumerate(reads):
+            if via_api != via_conn:
+                miss = [x for x in via_conn if x not in via_api][:3]
+                chk.violation("C20:api-log-stale", f"read #{i} of the log through YncaApi returns {len(via_api)} entries, the connection's log (checked against the wire by the other scenarios) has {len(via_conn)}; missing e.g. {miss!r}", {"api_log_case": k, "N": N})
+                break
+            if len(via_api) > N:
+                chk.violation("C20:api-log-bound", f"the log returned {len(via_api)} entries for N={N}", {"api_log_case": k, "N": N})
+                break
+
+
 def run(chk):
+    api_log_sessions(chk)
     return run_conn_check(
         chk, "C20", "Properties/C20.v", MON, dict(allow_delay=True, long_idle=True), 300, 6000,
         "C01/C13 scenarios with N in {0,1,2,3,5,50,10000}; the log is read from a caller thread during the burst and after idling and compared with the port's own record of writes "
